@@ -162,7 +162,7 @@ class Gen:
             self.simple(ind)
             return
         kinds = ["simple", "simple", "if", "if", "if", "for", "for", "while", "try", "try", "with", "match",
-                 "closure", "class", "gen", "comp", "ifexp"]
+                 "closure", "class", "gen", "comp", "ifexp", "compvars", "compvars"]
         kind = r.choice([k for k in kinds if self.allowed(k)] or ["simple"])
         self.used.add(kind)
         if kind == "simple":
@@ -273,6 +273,32 @@ class Gen:
                 f"[u + t for t in range(2) for u in range(t + 1) if u != {self.atom()}]",
             ])
             self.emit(ind, f"{r.choice(INT_VARS)} = len({c})")
+        elif kind == "compvars":
+            # inlined comprehension assigned directly (the compiler reorders the restoring stores), with one
+            # or several loop variables that are unbound / rebound / deleted / captured afterwards
+            self.uid += 1
+            u, w = f"c{self.uid}a", f"c{self.uid}b"
+            tgt = r.choice(INT_VARS + [f"r{self.uid}"])
+            src = r.choice(["l", "range(3)", "(1, 2)", "s"])
+            comp = r.choice([
+                f"[({u}, {w}) for {u} in {src} for {w} in (1, 2)]",
+                f"[{u} for {u} in {src}]",
+                f"{{{u}: {w} for {u} in {src} for {w} in range(2) if {w} != {self.atom()}}}",
+                f"[[{w} for {w} in range({u})] for {u} in (1, 2)]",
+                f"[x for x in {src}]",
+                f"{{{u} for {u} in {src} if {self.cmp(1).replace('o ', u + ' ').replace(' o', ' ' + u)}}}",
+            ])
+            pre = r.choice(["", "", f"{u} = {self.atom()}", f"{w} = 7"])
+            if pre:
+                self.emit(ind, pre)
+            self.emit(ind, r.choice([f"{tgt} = {comp}", f"{tgt} = {comp}", f"{tgt}, {r.choice(INT_VARS)} = {comp}, {self.atom()}",
+                                     f"{tgt} = len({comp})"]))
+            for _ in range(r.choice([0, 1, 2, 3])):
+                v = r.choice([u, w, "x"])
+                self.emit(ind, r.choice([f"{v} = {self.atom()}", f"del {v}", f"{r.choice(INT_VARS)} = {v}", f"print({v})",
+                                         f"{tgt} = (lambda: {v})()", f"{v} += 1"]))
+            if r.random() < 0.3:
+                self.emit(ind, f"{r.choice(INT_VARS)} = len({tgt}) if hasattr({tgt}, '__len__') else {tgt}")
         elif kind == "ifexp":
             self.emit(ind, f"{r.choice(INT_VARS)} = {self.atom()} if {self.cond(1)} else {self.iexpr(1)}")
 
@@ -479,6 +505,15 @@ def materialise(spec: dict):
 
 # Hand-written seeds: shapes that broke the unrepaired code (kept in corpus/C01.json too).
 SEED_PROGRAMS = [
+    # checked coverage: restoring stores of a multi-variable inlined comprehension without SWAP
+    PRELUDE + '''def f(a, b, s, l, o):
+    r = [(u, v) for u in l for v in l]
+    u = 1
+    v = 2
+    q = [w for w in l]
+    del w
+    return r, u, v, q
+''',
     # checked coverage: BINARY_SLICE returned the container instead of the slice
     PRELUDE + '''def f(a, b, s, l, o):
     x = l[1:3]
